@@ -57,7 +57,7 @@ func viAccess(tok string) []subscriber.AccessType {
 	return nil
 }
 
-// l2fw G {name gpol R {sv cv rpol acc}} Q {s c}
+// l2fw G {name gpol gacc R {sv cv rpol acc}}   gacc = l: group-level access-types [l2gw], - : none Q {s c}
 func viCase(f []string) (res string) {
 	defer func() {
 		if r := recover(); r != nil {
@@ -73,8 +73,11 @@ func viCase(f []string) (res string) {
 	for i := 0; i < ng; i++ {
 		name := viDecode(f[p])
 		g := &subscriber.SubscriberGroup{AAAPolicy: viDecode(f[p+1])}
-		nr, _ := strconv.Atoi(f[p+2])
-		p += 3
+		if f[p+2] == "l" {
+			g.AccessTypes = []subscriber.AccessType{subscriber.AccessTypeL2GW}
+		}
+		nr, _ := strconv.Atoi(f[p+3])
+		p += 4
 		for j := 0; j < nr; j++ {
 			g.VLANs = append(g.VLANs, subscriber.VLANRange{SVLAN: viDecode(f[p]), CVLAN: viDecode(f[p+1]),
 				AccessTypes: viAccess(f[p+3])})
